@@ -86,6 +86,11 @@ var checks = []checkDef{
 		Assumptions: []string{"patterns are well-formed and contain no '/'; names are valid UTF-8", "valid symlinks to regular files are generated only under non-matching names (whether they count as regular files is not judged)", "dangling links under matching non-dot names, faults on the source directory itself and source directories whose own path contains glob characters are outside the statement's quantifier and not generated", "error text is read only to choose a finding's signature"},
 		RealStub:    map[string]string{"real": "shellfuncsfile.Converter (From, from, fromDirectory, fromSingleFile, fromReader, SetFilter), FromShell/FromPerl/GenFuncList where the defaults are kept, io/fs (Sub, Glob, Stat, ReadFile, ReadDir), os.DirFS in one run of eight", "stub": "the file system (in-memory fs.FS with per-entry faults), marker filters"},
 		MustProbe:   []string{}},
+	{ID: "C19", Engine: "termsim", Level: "exploration", QuickMS: 40000, ThoroughMS: 600000, SelftestRuns: 150,
+		Rule: "one evaluation = one simulated operator session (one synctest bubble): opshell.New on the worker's pty, Shell.Do and the line editor, with typed keys (Ctrl+O, Ctrl+I, Ctrl+J, lines), shell-output and status lines, fake-clock sleeps with extra mass at the two-second pause interval (+-0, 1 ns, 1 ms, measured from the last shell output), floods, several mute cycles; 30 % of runs are lock-order schedules in which goroutines are parked at the verif yield points before/after the shell's write lock and inside the Ctrl+O callback and released singly or all at once; distinct = hash of (configuration, action sequence); non-trivial = at least one Ctrl+O",
+		Assumptions: []string{"the mute model's clock is judged only in runs where nothing is parked; an exact tie between a shell-output arrival and the un-mute instant ends timing judgement for that run", "the un-mute announcement is recognised as a terminal write that happens by itself during a sleep and carries no harness token, never by its wording", "a deadlock verdict needs proof from two goroutine dumps 300 ms apart (nothing runnable in the bubble, two or more goroutines in sync.Mutex.Lock with opshell/goxterm frames, nothing parked by the simulator); anything else that is stuck is exit 2"},
+		RealStub:    map[string]string{"real": "lib/opshell (New on a real pty incl. raw mode, Do, handleOutput, writePlain, Logf, insert, the silence timer), goxterm line editor, time (bubble clock)", "stub": "the terminal's byte streams (VerifStdio seam), the operator channels' other ends, the order of lock acquisitions in lock-order runs (VerifYield)"},
+		MustProbe:   []string{"mute_cycles", "unmuted_by_calm", "announcement_seen", "plain_while_muted", "status_while_muted", "ctrl_o_while_muted", "grant_all", "parked_ctrlo", "ctrl_i"}},
 	{ID: "C20", Engine: "procsim", Level: "fault_enumeration", Workers: 8, GOMAXPROCS: 4, QuickMS: 240000, ThoroughMS: 600000, SelftestRuns: 30, Exhaustible: true,
 		Rule: "one evaluation = one real process of the binary built from /repo (no verif tag), started under a fresh pty (or in a new session without controlling terminal), with a set of injected start-up faults; every single fault of the classes {no TTY, listen address unparsable/unresolvable/in use, cache truncated/garbage/sections swapped/below a file/is a directory, log path is a directory/below a file, missing Ctrl+I source} and every non-contradicting pair, each with no informational flag, -print-default-template, -print-ctrl-i and -h, with and without a TTY, plus normal exits by Ctrl+C, Ctrl+D and completed -one-shell in six termios variants: enumerated completely in both tiers; non-trivial = at least one fault or a normal-exit scenario",
 		Assumptions: []string{"process level: the binary, kernel, pty, loopback TCP and file system are real; the scheduler half of the technique has nothing to control here", "start-up counts as finished when a sha256// token appears on the pty", "all waits are event-driven with a 60 s cap (cap hit = exit 2); only 'does not exit by itself within 30 s' is judged", "cache_dir_unwritable is not generated when running as root"},
